@@ -15,11 +15,12 @@ INVS = ['YieldsExactlyMessages', 'NeverRaisesOnValid', 'DecoyNeverStartsMessage'
         'NoContinueDeliversPrefixThenError', 'YieldedSpansAreDisjointAndOrdered', 'NoPrefixDecodes', 'Emit']
 
 
-def tlc_run(wd, name, maxmsgs, pool, seps, faults, modes=ALL_MODES, uniform=False, cuts=False, timeout=3000):
+def tlc_run(wd, name, maxmsgs, pool, seps, faults, modes=ALL_MODES, uniform=False, cuts=False, timeout=3000, sweep=(1, 0, 1)):
     consts = {'MaxMsgs': str(maxmsgs), 'PoolIdx': '{' + ','.join(map(str, pool)) + '}',
               'SepIdx': '{' + ','.join(map(str, seps)) + '}',
               'Faults': '{' + ','.join('"%s"' % f for f in faults) + '}', 'Modes': modes,
-              'UniformSeps': 'TRUE' if uniform else 'FALSE', 'WithCuts': 'TRUE' if cuts else 'FALSE'}
+              'UniformSeps': 'TRUE' if uniform else 'FALSE', 'WithCuts': 'TRUE' if cuts else 'FALSE',
+              'SweepLo': str(sweep[0]), 'SweepHi': str(sweep[1]), 'SweepChunk': str(sweep[2])}
     text = tlc.mc_module(name, ['Stream'], consts)
     cfg = tlc.mc_cfg(consts, invariants=INVS)
     res = tlc.run(wd, name, cfg, text, coverage=False, lazy_emitted=True, timeout=timeout)
